@@ -73,6 +73,18 @@ func (W *World) mathBigIntType() types.Type {
 	return W.bigPkg.Scope().Lookup("Int").Type()
 }
 
+// strOfCode: the constant string with this code, if it is one
+func (W *World) strOfCode(c int64) (string, bool) {
+	W.mu.Lock()
+	defer W.mu.Unlock()
+	for s, v := range W.strCodes {
+		if v == c {
+			return s, true
+		}
+	}
+	return "", false
+}
+
 func (W *World) strCode(s string) int64 {
 	W.mu.Lock()
 	defer W.mu.Unlock()
